@@ -42,7 +42,8 @@ enum FaultKind
     F_SPLICE = 8,      // a = history index, b = cut position
     F_CORRUPT_VER = 9, // a = new version (segment frames only; 0 is mapped to 2)
     F_CORRUPT_TYPE = 10,  // a = new message type (segment frames only)
-    F_PARTITION = 11   // like drop, counted separately (generated for an interval)
+    F_PARTITION = 11,  // like drop, counted separately (generated for an interval)
+    F_ALLOCFAIL = 12   // a = k: the k-th allocation inside the decode call for this frame fails (std::bad_alloc); C02 only
 };
 
 // fields F_SETFIELD can address
